@@ -104,6 +104,122 @@ def search_sites(db, rep, prog, maxlen):
     return out
 
 
+class PrefixHooks(libtab.SAConc, QHooks):
+    """qmail-local main() from its entry to the .qmail search, on concrete arguments: what the header lines, the mbox From_ line
+    and the search key look like for a sender, local part and host that contain newlines, blanks, capitals and dots"""
+    CTIME = 'Thu Jan  1 00:16:40 1970\n'
+
+    def __init__(self):
+        self.ends = []
+        self.env = {}
+
+    def tracked_global(self, path):
+        return True
+
+    def precise_arith(self, path):
+        return True
+
+    def _ok1(self, E, x, args):
+        return [Outcome(ret=fs(1))]
+
+    def _ok0(self, E, x, args):
+        return [Outcome(ret=fs(0))]
+
+    def _n(self, E, x, args):
+        return [Outcome(ret=TOP)]
+
+    prim_env_init = _ok1
+    prim_chdir = _ok0
+    prim_umask = prim_sig_pipeignore = prim_checkhome = prim_bouncexf = _n
+
+    def prim_getopt(self, E, x, args):
+        # no options: the operands start behind the program name (getopt and optind under whichever names sgetopt.h gives them)
+        return [Outcome(ret=fs(-1), sets={'G:optind': fs(1), 'E:optind': fs(1), 'G:subgetoptind': fs(1), 'G:sgetoptind': fs(1)})]
+
+    prim_sgetoptmine = prim_subgetopt = prim_getopt
+
+    def prim_env_put2(self, E, x, args):
+        k, v = self.cstring(E, libtab._one(args[0])), self.cstring(E, libtab._one(args[1]))
+        E.set('$env:%s' % (k.decode() if k else '?'), fs(v))
+        return [Outcome(ret=fs(1))]
+
+    def prim_quote2(self, E, x, args):
+        # the sender of this scenario needs no quoting: the quoted form is the sender itself
+        return self._put(E, x, args, self.cstring(E, libtab._one(args[1])), False)
+
+    def prim_now(self, E, x, args):
+        return [Outcome(ret=fs(1000))]
+
+    def prim_myctime(self, E, x, args):
+        return [Outcome(ret=fs(('str', self.CTIME)))]
+
+    def prim_case_lowerb(self, E, x, args):
+        from qv.esp import ptr_add
+        p, n = libtab._one(args[0]), libtab._one(args[1])
+        m = self.mem(E, p, n) if isinstance(n, int) else None
+        if m is None:
+            return [Outcome(ret=TOP)]
+        st = {}
+        for k, b in enumerate(m.lower()):
+            st[ptr_add(p, k)[1]] = fs(b)
+        return [Outcome(ret=TOP, sets=st)]
+
+    def prim_qmesearch(self, E, x, args):
+        env = {k[5:]: libtab._one(v) for k, v in E.store.items() if k.startswith('$env:')}
+        self.ends.append(({n: self.sa_bytes(E, 'G:' + n) for n in ('dtline', 'rpline', 'ufline', 'safeext')}, env, E.trace.list()))
+        return 'noreturn'
+
+    def _die(self, E, x, args):
+        return 'noreturn'
+
+    prim_temp_nomem = prim_usage = prim_strerr_die5x = prim_strerr_die1x = _die
+
+
+def main_prefix_sites(db, rep, prog):
+    mainf = prog.fn('main', 'qmail-local.c')
+    argv = [b'qmail-local', b'--', b'user', b'/home/user', b'Lo\ncal', b'-', b'Ex.T-a.B', b'Ho\nst.Example.ORG', b'se nd\ter\n@x', b'./Mailbox']
+    bad = {}
+    n = 0
+    for sender in (b'se nd\ter\n@x', b'', bytes(range(1, 256))):      # the last one: every byte value, so that exactly blank, tab and newline are seen to change
+        av = list(argv)
+        av[8] = sender
+        H = PrefixHooks()
+        eng = Engine(db, prog, H, max_states=400000)
+        fid = eng.frame_id(mainf)
+        # getopt consumed "qmail-local": the operands start at argv[1] ("--" is an operand separator getopt would have eaten; leave it out)
+        ops = [av[0]] + av[2:]
+        st = {'%s::%s' % (fid, mainf.params[0]): fs(len(ops)), '%s::%s' % (fid, mainf.params[1]): fs(('&', 'ARGV[0]'))}
+        for k, a in enumerate(ops):
+            st['ARGV[%d]' % k] = fs(('&', 'A%d[0]' % k))
+            st.update(libtab.conc_string_cells('A%d' % k, a))
+        st['ARGV[%d]' % len(ops)] = fs(0)
+        eng.run(mainf, st)
+        rep.count_states(eng.states, eng.transitions)
+        if len(H.ends) != 1:
+            raise AnalysisBroken('qmail-local main: %d ways reach the .qmail search for concrete arguments' % len(H.ends))
+        lines, env, tr = H.ends[0]
+        n += 1
+        local, host, ext = av[4], av[7], av[6]
+        scrub = lambda b_: b_.replace(b'\n', b'_')
+        want = {'dtline': b'Delivered-To: ' + scrub(local + b'@' + host) + b'\n',
+                'rpline': b'Return-Path: <' + scrub(sender) + b'>\n',
+                'ufline': b'From ' + (sender.replace(b' ', b'-').replace(b'\t', b'-').replace(b'\n', b'-') if sender else b'MAILER-DAEMON') + b' ' + PrefixHooks.CTIME.encode(),
+                'safeext': ext.lower().replace(b'.', b':')}
+        names = {'dtline': 'newline-scrub-covers-the-whole-dtline', 'rpline': 'newline-scrub-covers-the-whole-rpline',
+                 'ufline': 'From_-line-maps-blank,tab,newline-of-the-sender-to-a-dash', 'safeext': 'search-key=lower-cased-extension-with-dots-as-colons'}
+        for k, w in want.items():
+            if lines.get(k) != w:
+                bad.setdefault(names[k], ('sender %r, recipient %r@%r, extension %r: %s is %r at the .qmail search; documented %r' % (sender, local, host, ext, k, lines.get(k), w), tr))
+        for ek, lk in (('DTLINE', 'dtline'), ('RPLINE', 'rpline'), ('UFLINE', 'ufline')):
+            if env.get(ek) != want[lk]:
+                bad.setdefault('environment-lines-are-the-scrubbed-lines', ('$%s is %r; documented %r' % (ek, env.get(ek), want[lk]), tr))
+    out = {}
+    for k in ('newline-scrub-covers-the-whole-dtline', 'newline-scrub-covers-the-whole-rpline', 'From_-line-maps-blank,tab,newline-of-the-sender-to-a-dash',
+              'search-key=lower-cased-extension-with-dots-as-colons', 'environment-lines-are-the-scrubbed-lines'):
+        out[k] = (k not in bad, 'qmail-local.c:main', bad[k][0] if k in bad else '%d scenarios' % n, bad[k][1] if k in bad else [])
+    return out
+
+
 def run(ctx):
     db, rep = ctx.db, ctx.report
     prog = db.program('qmail-local')
@@ -112,14 +228,9 @@ def run(ctx):
     r1 = rep.rule('C13.1-search-order', 'R-TABLE', 'qmesearch (extension of %d bytes, every dash pattern): exact name first, then prefix+"default" for every prefix ending in "-" from the longest (the whole extension) down to the empty prefix; fd = -1 if nothing exists' % LEN)
     for inst, v in sorted(search_sites(db, rep, prog, LEN).items()):
         r1.check(v[0], inst, v[1], v[2], v[3])
-    # safeext = lower-cased ext with '.' -> ':' before the search
-    qc = mainf.calls('qmesearch')
-    cl = [c for c in mainf.calls('case_lowerb') if 'safeext' in c.args[0].src()]
-    cp = [c for c in mainf.calls('stralloc_copys') if c.args[0].src() == '&safeext' and c.args[1].path() == 'G:ext']
-    colon = [x for x in mainf.all_x() if x.k == 'asg' and 'safeext.s' in x.args[0].src() and x.args[1].const == ord(':')]
-    okc = bool(colon) and any(c.strip().k == 'bin' and c.strip().op == '==' and c.strip().args[1].const == ord('.') and t is True for c, t in mainf.guards(colon[0]) or [])
-    r1.check(bool(qc and cl and cp) and mainf.dominates(cp[0], cl[0]) and mainf.dominates(cl[0], qc[0]) and okc and not mainf.can_reach(mainf.pos[qc[0].id][0], mainf.pos[colon[0].id][0]),
-             'search-key=lower-cased-extension-with-dots-as-colons', mainf.unit + ':main', 'safeext must be ext, lower-cased, "." replaced by ":" before qmesearch')
+    mps = main_prefix_sites(db, rep, prog)
+    v = mps['search-key=lower-cased-extension-with-dots-as-colons']
+    r1.check(v[0], 'search-key=lower-cased-extension-with-dots-as-colons', v[1], v[2], v[3])
     from rules import libtab
     for inst, v in sorted(libtab.case_lowerb_sites(db, rep, prog).items()):
         r1.check(v[0], inst, v[1], v[2], v[3])
@@ -486,37 +597,9 @@ def run(ctx):
              'a header line %s above the matching Delivered-To line ends the scan: the loop is not noticed and the message is delivered again' % [repr(f_) for f_ in badl])
     bc = mainf.calls('bouncexf')
     r6.check(bool(bc) and any(c.path() == 'G:flagdoit' and t is True for c, t in mainf.guards(bc[0]) or []), 'bouncexf-under-flagdoit', mainf.unit + ':main', '')
-    # sanitising loops: X.s[i] = '_' under X.s[i] == '\n' inside a loop bounded by i < X.len (same X), in main or in a helper
-    scrubbed = set()
-    n_loops = 0
-    for f in unit_callees(prog, mainf, depth=1):
-        for x in f.all_x():
-            if not (x.k == 'asg' and x.op == '=' and x.args[1].const == ord('_') and x.args[0].strip().k == 'idx'):
-                continue
-            tgt = x.args[0].src()
-            base = x.args[0].strip().args[0].src()          # rpline.s  /  sa->s
-            sa = base[:-3] if base.endswith('->s') else base[:-2] if base.endswith('.s') else base
-            lenname = sa + ('->len' if base.endswith('->s') else '.len')
-            g = f.guards(x) or []
-            nl = any(_cmp_parts(c) is not None and _cmp_parts(c)[0].src() == tgt and _cmp_parts(c)[1](10) == t and _cmp_parts(c)[1](11) != t for c, t in g)
-            bounds = [c.strip() for c, t in g if c.strip().k == 'bin' and c.strip().op in ('<', '>', '<=', '>=') and lenname in (c.strip().args[0].src(), c.strip().args[1].src())]
-            other_bounds = [c.strip() for c, t in g if c.strip().k == 'bin' and c.strip().op in ('<', '>') and c.strip() not in bounds and
-                            ('.len' in c.strip().src() or '->len' in c.strip().src())]
-            okl = nl and bool(bounds) and not other_bounds
-            n_loops += 1
-            r6.check(okl, 'newline-scrub-covers-the-whole-%s' % (sa if f is mainf else f.name + ':' + sa), x.where,
-                     'the loop replacing newlines in %s is bounded by %s instead of %s: a newline beyond that bound survives and splits the header line' %
-                     (sa, [c.src() for c in other_bounds] or 'nothing', lenname))
-            if f is mainf:
-                scrubbed.add(sa)
-            else:
-                for sc in mainf.calls(f.name):
-                    a0 = sc.args[0].strip()
-                    if a0.k == 'un' and a0.op == '&':
-                        scrubbed.add(a0.args[0].src())
-    if n_loops < 1:
-        raise AnalysisBroken('main: newline scrubbing loops not found')
-    r6.check({'rpline', 'dtline'} <= scrubbed, 'Return-Path-and-Delivered-To-are-both-scrubbed', mainf.unit + ':main', 'scrubbed lines: %s' % sorted(scrubbed))
+    # the header lines qmail-local builds from its arguments, newlines replaced (main explored concretely up to the .qmail search)
+    for k_ in ('newline-scrub-covers-the-whole-dtline', 'newline-scrub-covers-the-whole-rpline', 'environment-lines-are-the-scrubbed-lines'):
+        r6.check(mps[k_][0], k_, mps[k_][1], mps[k_][2], mps[k_][3])
     rp = [c for c in mainf.calls('stralloc_cat') if c.args[0].src() == '&rpline']
     q2 = mainf.calls('quote2')
     r6.check(bool(rp and q2) and rp[0].args[1].src() == '&foo' and q2[0].args[0].src() == '&foo' and q2[0].args[1].path() == 'G:sender' and mainf.dominates(q2[0], rp[0]),
